@@ -120,7 +120,7 @@ def headerStr (h : Header) : String :=
 
 structure St where
   w : World := ⟨none, none⟩
-  tree : Cmd.Tree := []
+  tree : Cmd.Tree := Cmd.Tree.empty
   cur : String := ""
 
 /-- write the current file's disk image back into the tree -/
@@ -128,7 +128,7 @@ def St.flush (st : St) : St :=
   if st.cur = "" then st else
   match st.w.disk with
   | some d => { st with tree := st.tree.set st.cur d }
-  | none => { st with tree := st.tree.filter fun e => e.1 ≠ st.cur }
+  | none => { st with tree := st.tree.remove st.cur }
 
 def St.reload (st : St) : St :=
   if st.cur = "" then st else { st with w := ⟨st.tree.get st.cur, none⟩ }
